@@ -104,6 +104,7 @@ def load_package():
             raise PyFrontendError('%s does not parse: %s' % (p, e))
         canonical_compares(tree)
         inline_explaining_variables(tree)
+        hoist_else_after_exit(tree)
         merge_split_guards(tree)
         pkg.modules[rel] = Module(rel, p, src, tree)
     # stub file for the extension module
@@ -242,6 +243,46 @@ def canonical_compares(tree):
                     node.left, node.comparators, node.ops = r, [l], [_MIRROR[type(op)]()]
                 elif isinstance(op, (ast.Eq, ast.NotEq, ast.Is, ast.IsNot)):
                     node.left, node.comparators = r, [l]
+    return tree
+
+
+def hoist_else_after_exit(tree):
+    """No else after a branch that always leaves (the Python half of
+    cxx_frontend.hoist_else_after_exit): `if c: ...; return x` + `else: REST` is shown as the guard
+    followed by REST in the enclosing statement list; `elif` chains after exiting arms become a
+    sequence of guards."""
+    def always_exits(body):
+        b = [x for x in body if not isinstance(x, ast.Pass)]
+        if not b:
+            return False
+        last = b[-1]
+        if isinstance(last, (ast.Return, ast.Raise, ast.Continue, ast.Break)):
+            return True
+        if isinstance(last, ast.If) and last.orelse:
+            return always_exits(last.body) and always_exits(last.orelse)
+        return False
+
+    def fix(body):
+        for s_ in body:
+            for fld in ('body', 'orelse', 'finalbody'):
+                b = getattr(s_, fld, None)
+                if isinstance(b, list) and b and isinstance(b[0], ast.stmt):
+                    fix(b)
+            if isinstance(s_, ast.Try):
+                for h in s_.handlers:
+                    fix(h.body)
+            if hasattr(ast, 'Match') and isinstance(s_, ast.Match):
+                for c in s_.cases:
+                    fix(c.body)
+        i = 0
+        while i < len(body):
+            s_ = body[i]
+            if isinstance(s_, ast.If) and s_.orelse and always_exits(s_.body):
+                tail = s_.orelse
+                s_.orelse = []
+                body[i + 1:i + 1] = tail
+            i += 1
+    fix(tree.body)
     return tree
 
 
